@@ -37,7 +37,19 @@ RULE = (
     "(5 separator patterns). Canonical = the "
     "URI string (de-duplicated), so distinct cases = distinct (config, form, depth, string). Non-trivial = the "
     "reference walk of the URI steps above a configured root at least once (for some admissible interpretation), "
-    "or the URI spells an absolute file-system path."
+    "or the URI spells an absolute file-system path. "
+    "SHARING OF LOOKUPS IN THE GRID: one TemplateLookup per (configuration, form, depth) serves a whole chunk of <=300 "
+    "URIs, and the module_directory is emptied at the start of every chunk - a deliberate long history; a case that "
+    "fails there is re-executed on a pristine tree and a fresh lookup alone, then after each earlier case of its chunk "
+    "(outside-resolving ones first), then after the whole chunk history, and is reported with the prelude it needs, so "
+    "every reported case replays (a case with a prelude = prelude URIs, then the case, on ONE lookup over one tree). "
+    "TWO-CALL HISTORIES (enumerated, each on a fresh lookup, module_directory emptied before each): for every u1 of "
+    "<=k1 segments (spellings 'a/b', '/a/b', 'a\\b') that resolves outside every root and every u2 != u1 that is "
+    "either any URI of <=k2 segments (spellings 'a/b', '/a/b', 'a\\b', '//a//b'; only when u1 names an existing outside "
+    "file) or any URI of <=keq segments whose root-clamped normal form equals u1's: get_template(u1) then u2 through the "
+    "form, and u2 through the form then get_template(u1). The tree holds, for the outside files <name>, <outsidedir>/"
+    "<name>, an inside file of the same relative name (file present) and for <secret>, <outsidedir>/<secret> none "
+    "(file absent). distinct state = one history; both calls are judged by all oracles."
 )
 ASSUMPTIONS = [
     "no symbolic links are planted (not part of the statement); lexical and physical resolution then coincide for every path that exists",
@@ -47,6 +59,8 @@ ASSUMPTIONS = [
     "os.stat/os.path.isfile raise no audit event: probing the existence of an outside path is not observed (the statement speaks of content)",
     "audit events are recorded for open/os.*/shutil.*/tempfile.*; paths under sys.prefix, the python installation, the mako tree under test and /verif are whitelisted",
     "the quantifier's 'random longer ones' is not implemented: the deciding step is complete enumeration only",
+    "state that outlives a call (lookup memo tables, module files) is covered by the enumerated two-call histories and, beyond that bound, only by the <=300-URI chunk histories of the grid; histories of three or more calls are not enumerated systematically",
+    "order-dependent failures: at most 4 failing cases per worker signature and job are re-executed and reported (the others are counted in violations_by_worker_signature); their signature drops the spelling of the second URI and names the kind of earlier call needed",
     "CPython os/posixpath, sys.addaudithook and the 30-line reference walker are trusted",
 ]
 BOUNDS = {
@@ -54,6 +68,9 @@ BOUNDS = {
         "n": 4,
         "mix_n": 3,
         "abs_tail": 2,
+        "two_call_histories": "u2 by get_template: (k1,k2,keq)=(3,2,3) on (abs, no modules), all u1; on (two roots, modules) only u1 naming an existing outside "
+        "file; u2 by has_template: (3,2,3) existing-file u1 on (abs, no modules); u2 by each of the five tag forms (caller depth 0): (3,1,2) "
+        "existing-file u1 on (abs, no modules); both orders",
         "plan": "n = segments (pattern+abs families / separator-mix family). get_template: n<=4/3 on (abs root, no modules), n<=3/2 on all 8 "
         "configurations; has_template: n<=3/2 on (abs, no modules), n<=2/2 on all 8; <%include>: depth 1 n<=4/2, depth 0..3 n<=3/2 on (abs, no "
         "modules); inherit, namespace, ns.get_template, ns.get_namespace: depth 1 n<=3/2 on (abs, no modules); all five tag forms depth 0..3 "
@@ -63,8 +80,11 @@ BOUNDS = {
         "n": 6,
         "mix_n": 4,
         "abs_tail": 3,
+        "two_call_histories": "u2 by get_template: (k1,k2,keq)=(3,3,3) all u1 and (4,2,4) existing-file u1 on (abs, no modules); get_template and has_template "
+        "(3,2,3) existing-file u1 on all 8 configurations; five tag forms (caller depth 0) (3,2,2) existing-file u1 on {(abs, no modules), "
+        "(two roots, modules)}; both orders",
         "plan": "get_template: n<=6/4 on (abs, no modules), n<=5/3 on (two roots, modules), n<=4/3 on all 8; has_template: n<=4/3 on (abs, no "
-        "modules), n<=3/2 on all 8; <%include>: depth 1..3 n<=5/3, depth 0 n<=4/3 on (abs, no modules); the other four tag forms depth 0..3 "
+        "modules), n<=3/2 on all 8; <%include>: depth 2..3 n<=5/3, depth 0..1 n<=4/3 on (abs, no modules); the other four tag forms depth 0..3 "
         "n<=4/2 on (abs, no modules); all five tag forms depth 0..3 n<=3/2 on {(abs, no modules), (two roots, modules)} and n<=2/2 on all 8",
     },
 }
@@ -125,8 +145,8 @@ PLANS = {
         (["G"], [0], ALL_CFG, 4, 3),
         (["H"], [0], [_AO], 4, 3),
         (["H"], [0], ALL_CFG, 3, 2),
-        (["I"], [1, 2, 3], [_AO], 5, 3),
-        (["I"], [0], [_AO], 4, 3),
+        (["I"], [2, 3], [_AO], 5, 3),
+        (["I"], [0, 1], [_AO], 4, 3),
         (OTHER_TAGS, [0, 1, 2, 3], [_AO], 4, 2),
         (TAG_FORMS, [0, 1, 2, 3], [_AO, _TM], 3, 2),
         (TAG_FORMS, [0, 1, 2, 3], ALL_CFG, 2, 2),
@@ -304,6 +324,7 @@ def tree_files(nm):
         O + "/" + D + "/" + N,
         O + "/only2-" + N,
         D + "/" + N,
+        D + "/" + O + "/" + N,
         D + "/.." + N,
         D + "/" + D + "../" + N,
     ]
@@ -435,6 +456,7 @@ class World:
         self.files = build_tree(self.T, self.nm)
         self.snap0, self.mods0 = snapshot(self.T)
         self.cells = {}
+        self.rw = None  # pristine twin used to re-execute failing cases (resolve_history)
         wl = {sys.prefix, sys.base_prefix, sys.exec_prefix, os.path.abspath(core.REPO), core.VERIF,
               os.path.dirname(os.__file__)}
         self.whitelist = tuple(sorted(os.path.realpath(p) for p in wl if p))
@@ -455,6 +477,16 @@ class World:
     def reset_cells(self):
         self.cells = {}
 
+    def clear_mods(self):
+        """module_directory back to empty (module files are state that outlives a lookup)"""
+        md = os.path.join(self.T, "mods")
+        if os.listdir(md):
+            import shutil
+
+            shutil.rmtree(md)
+            os.makedirs(md)
+        self.mods0 = []
+
     def directories(self, cfg):
         T = self.T
         k = cfg["roots"]
@@ -470,21 +502,32 @@ class World:
     def rootnames(self, cfg):
         return (self.nm["D"], self.nm["O"]) if cfg["roots"] == "two" else (self.nm["D"],)
 
+    def new_lookup(self, ci):
+        """a fresh TemplateLookup for configuration ci"""
+        cfg = CONFIGS[ci]
+        LK = rec_lookup_class()
+        md = None
+        if cfg["mods"]:
+            md = "./mods/." if cfg["roots"] == "dot" else self.T + "/mods"
+        return LK(directories=self.directories(cfg), module_directory=md)
+
+    def caller_of(self, lk, form, depth):
+        """the calling template of a tag form, fetched (once) from that same lookup"""
+        if form not in CALLER_SRC:
+            return None
+        c = lk.callers.get((form, depth))
+        if c is None:
+            c = lk.callers[(form, depth)] = lk.get_template(caller_uri(form, depth, self.nm))
+            del lk.rec[:]
+        return c
+
     def cell(self, ci, form, depth):
+        """grid: one lookup per (configuration, form, depth), alive for one chunk of URIs"""
         key = (ci, form, depth)
         c = self.cells.get(key)
         if c is None:
-            cfg = CONFIGS[ci]
-            LK = rec_lookup_class()
-            md = None
-            if cfg["mods"]:
-                md = "./mods/." if cfg["roots"] == "dot" else self.T + "/mods"
-            lk = LK(directories=self.directories(cfg), module_directory=md)
-            caller = None
-            if form in CALLER_SRC:
-                caller = lk.get_template(caller_uri(form, depth, self.nm))
-            del lk.rec[:]
-            c = self.cells[key] = (lk, caller)
+            lk = self.new_lookup(ci)
+            c = self.cells[key] = (lk, self.caller_of(lk, form, depth))
         return c
 
 
@@ -502,6 +545,7 @@ def rec_lookup_class():
             def __init__(self, *a, **k):
                 TemplateLookup.__init__(self, *a, **k)
                 self.rec = []
+                self.callers = {}
 
             def get_template(self, uri):
                 t = TemplateLookup.get_template(self, uri)
@@ -541,15 +585,19 @@ def uri_shape(form, uri_t):
     return "%s lead=%s %s" % ("direct" if form in "GH" else "tag", lc, "+".join(feats) or "plain")
 
 
-def run_case(w, ci, form, depth, uri_t):
-    """execute one case on the real library.  -> (obs, viols)
+def run_case(w, ci, form, depth, uri_t, lk=None):
+    """execute one case on the real library (on the grid cell's lookup, or on
+    the given lookup).  -> (obs, viols)
     viols: list of (sig, oracle_text, expected, observed)"""
     from mako import exceptions
 
     cfg = CONFIGS[ci]
     T = w.T
     uri = concrete(uri_t, T)
-    lk, caller = w.cell(ci, form, depth)
+    if lk is None:
+        lk, caller = w.cell(ci, form, depth)
+    else:
+        caller = w.caller_of(lk, form, depth)
     del lk.rec[:]
     out = None
     etext = None
@@ -670,6 +718,7 @@ def run_case(w, ci, form, depth, uri_t):
         "kind": kind if kind != "refused" or form == "H" else "refused:" + sub,
         "nontrivial": nontriv,
         "nrecs": len(recs),
+        "must": must,
     }
     if not viols:
         return obs, viols
@@ -733,13 +782,50 @@ def diff_snapshot(w, cfg):
 # jobs
 
 
+MODNAME = "mc.props.c09"
+CHAIN = "same-lookup"  # cases carrying this key are replayed, in order, on ONE lookup (see replay)
+
+# two-call histories on a fresh lookup.  rows: (forms of the second URI, config ids, k1, k2, keq, exists_only)
+#   u1 ranges over the URIs of <=k1 segments (spellings PAIR_SP1) that resolve outside every root;
+#   u2 over every URI of <=k2 segments (spellings PAIR_SP2) when u1 names an existing outside file,
+#   plus every URI of <=keq segments whose root-clamped normal form equals u1's; u2 != u1.
+#   exists_only: only the u1 that name an existing outside file.
+PAIR_SP1 = [("", "/"), ("/", "/"), ("", "\\")]
+PAIR_SP2 = [("", "/"), ("/", "/"), ("", "\\"), ("//", "//")]
+PAIR_PLANS = {
+    "quick": [
+        (["G"], [_AO], 3, 2, 3, False),
+        (["G"], [_TM], 3, 2, 3, True),
+        (["H"], [_AO], 3, 2, 3, True),
+        (TAG_FORMS, [_AO], 3, 1, 2, True),
+    ],
+    "thorough": [
+        (["G"], [_AO], 3, 3, 3, False),
+        (["G"], [_AO], 4, 2, 4, True),
+        (["G", "H"], ALL_CFG, 3, 2, 3, True),
+        (TAG_FORMS, [_AO, _TM], 3, 2, 2, True),
+    ],
+}
+PAIR_SHARDS = {"quick": 16, "thorough": 64}
+
+
 def plan(tier, seed):
     ns = 64 if tier == "quick" else 256
     order = list(range(ns))
     # the seed permutes shard order only
     k = seed % ns
     order = order[k:] + order[:k]
-    return [{"tier": tier, "seed": seed, "shard": i, "nshards": ns} for i in order]
+    jobs = [{"kind": "grid", "tier": tier, "seed": seed, "shard": i, "nshards": ns} for i in order]
+    nps = PAIR_SHARDS[tier]
+    pj = [{"kind": "pairs", "tier": tier, "seed": seed, "shard": i, "nshards": nps} for i in range(nps)]
+    # interleave so that the pair jobs do not all queue at the end
+    out = []
+    step = max(1, len(jobs) // max(1, len(pj)))
+    for i, j in enumerate(jobs):
+        out.append(j)
+        if i % step == 0 and pj:
+            out.append(pj.pop(0))
+    return out + pj
 
 
 def cases_for(tier, n, fam):
@@ -766,6 +852,8 @@ def run_job(job):
     st = Stats()
     cwd = os.getcwd()
     try:
+        if job.get("kind") == "pairs":
+            return _run_pairs_job(job, st)
         return _run_job(job, st)
     finally:
         try:
@@ -784,7 +872,8 @@ class _Viols:
     def add(self, sig, case, oracle, expected, observed):
         self.count[sig] = self.count.get(sig, 0) + 1
         lst = self.by.setdefault(sig, [])
-        lst.append((len(case["uri"]), case["uri"], case, oracle, expected, observed))
+        size = len(case["uri"]) + sum(len(h["uri"]) for h in case.get("prelude") or [])
+        lst.append((size, case["uri"], case, oracle, expected, observed))
         lst.sort(key=lambda x: x[:2])
         del lst[3:]
 
@@ -793,6 +882,126 @@ class _Viols:
             for _, _, case, oracle, expected, observed in self.by[sig]:
                 st.violation(sig, case, oracle, expected=expected, observed=observed)
             st.sigcount[sig] = self.count[sig]
+
+
+def mkcase(cfg, form, depth, uri_t, seed):
+    return {"cfg": cfg, "form": form, "depth": depth, "uri": uri_t, "seed": seed}
+
+
+def _sigs(viols):
+    return {v[0] for v in viols}
+
+
+def prelude_footprint(w, ci, h):
+    must = ref_class(concrete(h["uri"], w.T), h["form"], h["depth"], w.nm["D"], w.rootnames(CONFIGS[ci]))[0]
+    return " | after an earlier %s of %s on the same lookup" % (
+        "lookup" if h["form"] in "GH" else "tag lookup",
+        "a URI resolving outside the roots" if must else "another URI")
+
+
+def _snap_count(st):
+    d = st.extra.get("violations_by_worker_signature", {})
+    return sum(v for k, v in d.items() if k.startswith("snapshot:"))
+
+
+def base_of(sig):
+    """order-dependent violations are classified by oracle and access class only
+    (the spelling of the second URI is not what fails)"""
+    head, _, shape = sig.partition(": ")
+    cls = shape.split(" ", 1)[0] if shape.startswith(("direct", "tag")) else ""
+    return head + (": " + cls if cls else "")
+
+
+RESOLVE_PER_SIG = 4  # per job and signature: how many failing cases are re-executed on a pristine tree
+SEARCH_MAX = 320
+
+
+def _pristine_run(w, ci, seq):
+    """Run the sequence of cases on ONE fresh lookup over a pristine copy of the
+    tree (exactly what replay() does).  -> signatures of the last step"""
+    rw = w.rw
+    if rw is None:
+        rw = w.rw = World(w.seed)
+    cfg = CONFIGS[ci]
+    os.chdir(rw.T)
+    try:
+        rw.clear_mods()
+        lk = rw.new_lookup(ci)
+        viols = []
+        for c in seq:
+            _, viols = run_case(rw, ci, c["form"], c["depth"], c["uri"], lk=lk)
+        sigs = _sigs(viols)
+        d = diff_snapshot(rw, cfg)
+        if d is not None:
+            sigs.add("snapshot: %s roots=%s" % (d[0], cfg["roots"]))
+            rw.rebuild()
+        return sigs
+    finally:
+        os.chdir(w.T)
+
+
+def resolve_history(w, st, ci, case, viols, history, budget):
+    """A case failed on a lookup / tree that had served `history` (list of case
+    dicts, oldest first) before.  Decide by re-execution on a pristine tree and
+    a fresh lookup whether it fails alone or needs an earlier call, so that
+    every reported case replays.  At most RESOLVE_PER_SIG cases per signature
+    and job are re-executed; the others are only counted.
+    -> list of (case', sig', oracle, expected, observed)"""
+    cnt = st.extra.setdefault("violations_by_worker_signature", {})
+    todo = []
+    for v in viols:
+        cnt[v[0]] = cnt.get(v[0], 0) + 1
+        if budget.get(v[0], 0) < RESOLVE_PER_SIG:
+            budget[v[0]] = budget.get(v[0], 0) + 1
+            todo.append(v)
+    if not todo:
+        return []
+    rx = st.extra
+    rx["recheck_executions"] = rx.get("recheck_executions", 0) + 1
+    got = _pristine_run(w, ci, [case])
+    out = []
+    dep = []
+    for v in todo:
+        if v[0] in got:
+            out.append((case, v[0], v[1], v[2], v[3]))
+        else:
+            dep.append(v)
+    if not dep:
+        return out
+    rx["order_dependent_failures_resolved"] = rx.get("order_dependent_failures_resolved", 0) + len(dep)
+    need = {v[0] for v in dep}
+    found = {}
+    # candidates: nearest first, but URIs resolving outside the roots before the others
+    roots = w.rootnames(CONFIGS[ci])
+    cands = [h for h in reversed(history) if not (h["uri"] == case["uri"] and h["form"] == case["form"] and h["depth"] == case["depth"])]
+    outside = [h for h in cands if ref_class(concrete(h["uri"], w.T), h["form"], h["depth"], w.nm["D"], roots)[0]]
+    rest = [h for h in cands if h not in outside]
+    for h in (outside + rest)[:SEARCH_MAX]:
+        rx["recheck_executions"] += 2
+        for sg in _pristine_run(w, ci, [h, case]) & need:
+            found.setdefault(sg, h)
+        if len(found) == len(need):
+            break
+    missing = need - set(found)
+    if missing and len(history) > 1:
+        # no single earlier call suffices: the whole history of this lookup
+        rx["recheck_executions"] += len(history) + 1
+        for sg in _pristine_run(w, ci, list(history) + [case]) & missing:
+            found[sg] = list(history)
+    for v in dep:
+        h = found.get(v[0])
+        if h is None:
+            rx.setdefault("harness_errors", []).append(
+                "case %r failed (%s) in the worker but neither alone, after one earlier call, nor after the whole history of its lookup on a pristine tree" % (case, v[0]))
+            continue
+        if isinstance(h, list):
+            pre = [dict(x, chain=CHAIN) for x in h]
+            sig = base_of(v[0]) + " | after a history of earlier calls on the same lookup"
+        else:
+            pre = [dict(h, chain=CHAIN)]
+            sig = base_of(v[0]) + prelude_footprint(w, ci, h)
+        out.append((dict(case, chain=CHAIN, prelude=pre), sig, v[1], v[2], v[3]))
+    return out
 
 
 def _run_job(job, st):
@@ -810,6 +1019,7 @@ def _run_job(job, st):
         seen.add(uri_t)
         by_n.setdefault((n, fam), []).append(uri_t)
     st.extra["distinct_uris"] = len(seen)
+    budget = {}
     for n, fam in sorted(by_n):
         combos = cases_for(tier, n, fam)
         uris = by_n[(n, fam)]
@@ -817,7 +1027,7 @@ def _run_job(job, st):
         for ci_group in _group_by_cfg(combos):
             for i in range(0, len(uris), CHUNK):
                 chunk = uris[i:i + CHUNK]
-                _run_chunk(w, st, vi, seed, ci_group, chunk)
+                _run_chunk(w, st, vi, seed, ci_group, chunk, budget)
     st.extra["uris_by_segments"] = per_n
     vi.flush(st)
     return st
@@ -830,19 +1040,21 @@ def _group_by_cfg(combos):
     return [groups[k] for k in sorted(groups)]
 
 
-def _run_chunk(w, st, vi, seed, combos, chunk, percase=False):
-    """all cases (combos x chunk) of one configuration; oracle 5 at the end
-    (per case when percase: used to attribute a snapshot difference)"""
+def _run_chunk(w, st, vi, seed, combos, chunk, budget, percase=False):
+    """all cases (combos x chunk) of one configuration.  One lookup per (form,
+    depth) serves the whole chunk (a deliberate long history); a failure is then
+    re-executed on fresh lookups (resolve_history).  Oracle 5 at the end (per
+    case when percase: used to attribute a snapshot difference)"""
     ci = combos[0][0]
     cfg = CONFIGS[ci]
     w.reset_cells()
-    w.mods0 = snapshot(w.T)[1]
+    w.clear_mods()
     local = []
     for combo in combos:
         _, form, depth = combo
-        for uri_t in chunk:
+        for idx, uri_t in enumerate(chunk):
             obs, viols = run_case(w, ci, form, depth, uri_t)
-            case = {"cfg": cfg, "form": form, "depth": depth, "uri": uri_t, "seed": seed}
+            case = mkcase(cfg, form, depth, uri_t, seed)
             if percase:
                 d = diff_snapshot(w, cfg)
                 if d is not None:
@@ -850,20 +1062,19 @@ def _run_chunk(w, st, vi, seed, combos, chunk, percase=False):
                                   "5 the tree outside module_directory is unchanged", "unchanged tree", d[1]))
                     w.rebuild()
                     w.mods0 = []
-            local.append((case, obs, viols))
+            local.append((case, obs, viols, idx))
     if not percase:
         d = diff_snapshot(w, cfg)
         if d is not None:
             # attribute: rebuild and re-run this chunk with a snapshot after every case
             w.rebuild()
-            n0 = sum(len(x[2]) for x in local)
-            before = dict(vi.count)
-            _run_chunk(w, st, vi, seed, combos, chunk, percase=True)
-            if not any(s.startswith("snapshot:") and vi.count.get(s, 0) > before.get(s, 0) for s in vi.count):
+            before = _snap_count(st)
+            _run_chunk(w, st, vi, seed, combos, chunk, budget, percase=True)
+            if _snap_count(st) == before:
                 st.extra.setdefault("harness_errors", []).append(
                     "snapshot difference %r after a chunk could not be attributed to a case" % (d,))
-            return n0
-    for case, obs, viols in local:
+            return
+    for pos, (case, obs, viols, idx) in enumerate(local):
         st.evaluations += 1
         st.states += 1
         st.traces += 1
@@ -880,35 +1091,254 @@ def _run_chunk(w, st, vi, seed, combos, chunk, percase=False):
             st.extra.setdefault("other_exceptions", {})
             k = "%s %s" % (case["form"], obs["kind"])
             st.extra["other_exceptions"][k] = st.extra["other_exceptions"].get(k, 0) + 1
-        for sig, oracle, expected, observed in viols:
-            vi.add(sig, case, oracle, expected, observed)
+        if viols:
+            # everything this chunk ran before on this tree (module files outlive the per-form lookups)
+            history = [x[0] for x in local[:pos]]
+            for c2, sig, oracle, expected, observed in resolve_history(w, st, ci, case, viols, history, budget):
+                vi.add(sig, c2, oracle, expected, observed)
         if st.evaluations % 9973 == 1:
             st.sample({"case": case, "ref": obs["ref"], "outcome": obs["kind"]})
     st.oracles["snapshot"] += 1 if not percase else len(local)
-    return 0
 
 
 # --------------------------------------------------------------------------
+# two-call histories
+
+
+def clamp_form(uri):
+    """root-clamped normal form: '..' at the root stays at the root"""
+    stk = []
+    for t in ref_tokens(uri):
+        if t == "..":
+            if stk:
+                stk.pop()
+        else:
+            stk.append(t)
+    return tuple(stk)
+
+
+def pair_universe(seed, n, spellings):
+    S = segments(seed)
+    out = []
+    seen = set()
+    for k in range(1, n + 1):
+        for segs in itertools.product(S, repeat=k):
+            for pre, sep in spellings:
+                u = pre + sep.join(segs)
+                if u not in seen:
+                    seen.add(u)
+                    out.append(u)
+    return out
+
+
+def gen_pairs(tier, seed, w, shard, nshards):
+    """yield (ci, form, u1, u2) - each once - for this shard (sharded on u1)"""
+    cache = {}
+
+    def uni(n, sp):
+        key = (n, id(sp))
+        if key not in cache:
+            cache[key] = pair_universe(seed, n, sp)
+        return cache[key]
+
+    emitted = set()
+    for forms, cfgs, k1, k2, keq, exists_only in PAIR_PLANS[tier]:
+        W = uni(k2, PAIR_SP2)
+        key = ("eq", keq)
+        if key not in cache:
+            byc = {}
+            for v in uni(keq, PAIR_SP2):
+                byc.setdefault(clamp_form(v), []).append(v)
+            cache[key] = byc
+        byc = cache[key]
+        for ci in cfgs:
+            roots = w.rootnames(CONFIGS[ci])
+            for u1 in uni(k1, PAIR_SP1):
+                if zlib.crc32(u1.encode()) % nshards != shard:
+                    continue
+                must, _, _, finals = ref_class(u1, "G", 0, w.nm["D"], roots)
+                if not must:
+                    continue
+                exists = any(f is not None and "/".join(f) in w.files for f in finals)
+                if exists_only and not exists:
+                    continue
+                cands = list(byc.get(clamp_form(u1), ()))
+                if exists:
+                    cands = cands + W
+                seen2 = set()
+                for u2 in cands:
+                    if u2 == u1 or u2 in seen2:
+                        continue
+                    seen2.add(u2)
+                    for f in forms:
+                        k = (ci, f, u1, u2)
+                        if k in emitted:
+                            continue
+                        emitted.add(k)
+                        yield k
+
+
+def run_history(w, ci, steps):
+    """steps: [(form, depth, uri)] issued in order on ONE fresh lookup"""
+    if CONFIGS[ci]["mods"]:
+        w.clear_mods()
+    lk = w.new_lookup(ci)
+    return [run_case(w, ci, f, d, u, lk=lk) for f, d, u in steps]
+
+
+PAIR_BATCH = 150
+
+
+def _run_pairs_job(job, st):
+    tier, seed = job["tier"], job["seed"]
+    w = World(seed)
+    os.chdir(w.T)
+    vi = _Viols()
+    budget = {}
+    groups = {}
+    for ci, f, u1, u2 in gen_pairs(tier, seed, w, job["shard"], job["nshards"]):
+        groups.setdefault(ci, []).append((f, u1, u2))
+    for ci in sorted(groups):
+        items = groups[ci]
+        for i in range(0, len(items), PAIR_BATCH):
+            _run_pair_batch(w, st, vi, seed, ci, items[i:i + PAIR_BATCH], budget)
+    vi.flush(st)
+    return st
+
+
+def _run_pair_batch(w, st, vi, seed, ci, items, budget, perhist=False):
+    cfg = CONFIGS[ci]
+    w.clear_mods()
+    local = []
+    for f, u1, u2 in items:
+        for order in ("outside-first", "outside-second"):
+            steps = [("G", 0, u1), (f, 0, u2)]
+            if order == "outside-second":
+                steps.reverse()
+            res = run_history(w, ci, steps)
+            if perhist:
+                d = diff_snapshot(w, cfg)
+                if d is not None:
+                    res[-1][1].append(("snapshot: %s roots=%s" % (d[0], cfg["roots"]),
+                                       "5 the tree outside module_directory is unchanged", "unchanged tree", d[1]))
+                    w.rebuild()
+                    w.mods0 = []
+            local.append((order, steps, res))
+    if not perhist:
+        d = diff_snapshot(w, cfg)
+        if d is not None:
+            w.rebuild()
+            before = _snap_count(st)
+            _run_pair_batch(w, st, vi, seed, ci, items, budget, perhist=True)
+            if _snap_count(st) == before:
+                st.extra.setdefault("harness_errors", []).append(
+                    "snapshot difference %r after a batch of two-call histories could not be attributed" % (d,))
+            return
+    for order, steps, res in local:
+        st.evaluations += 2
+        st.states += 1
+        st.traces += 1
+        st.nontrivial += 1
+        st.transitions += 2 + res[0][0]["nrecs"] + res[1][0]["nrecs"]
+        st.oracles["filename"] += res[0][0]["nrecs"] + res[1][0]["nrecs"]
+        st.oracles["audit+markers"] += 2
+        st.oracles["reference"] += 2
+        st.outcomes[("two calls", order, res[0][0]["ref"] + ":" + res[0][0]["kind"].split(":")[0],
+                     res[1][0]["ref"] + ":" + res[1][0]["kind"].split(":")[0])] += 1
+        fk = "histories_" + FORM_NAMES[steps[0][0] if order == "outside-second" else steps[1][0]]
+        st.extra[fk] = st.extra.get(fk, 0) + 1
+        cases = [mkcase(cfg, f, d, u, seed) for f, d, u in steps]
+        for i, (obs, viols) in enumerate(res):
+            if viols:
+                for c2, sig, oracle, expected, observed in resolve_history(w, st, ci, cases[i], viols, cases[:i], budget):
+                    vi.add(sig, c2, oracle, expected, observed)
+        if st.states % 4999 == 1:
+            st.sample({"history": cases, "outcomes": [r[0]["kind"] for r in res]})
+    st.oracles["snapshot"] += 1 if not perhist else len(local)
+
+
+# --------------------------------------------------------------------------
+# replay.  A plain case runs on a fresh tree and a fresh lookup.  A case with
+# `prelude` runs its prelude cases and then itself on ONE lookup.  Cases marked
+# with the CHAIN key and replayed one after the other in the same interpreter
+# (core.isolated_replay: prelude cases, then the case) share one tree and one
+# lookup per configuration - that is how an order-dependent violation replays.
+
+_CHAIN_CTX = {}
+_ATEXIT = []
+
+
+class _Ctx:
+    def __init__(self, seed):
+        self.w = World(seed)
+        self.lookups = {}
+        if not _ATEXIT:
+            import atexit
+
+            atexit.register(core.cleanup_scratch)
+            _ATEXIT.append(1)
+
+    def step(self, case):
+        w = self.w
+        ci = cfg_id(case["cfg"]["roots"], case["cfg"]["mods"])
+        lk = self.lookups.get(ci)
+        if lk is None:
+            lk = self.lookups[ci] = w.new_lookup(ci)
+        obs, viols = run_case(w, ci, case["form"], case["depth"], case["uri"], lk=lk)
+        d = diff_snapshot(w, CONFIGS[ci])
+        if d is not None:
+            viols = list(viols) + [("snapshot: %s roots=%s" % (d[0], case["cfg"]["roots"]),
+                                    "5 the tree outside module_directory is unchanged", "unchanged tree", d[1])]
+        text = "%s(%r) depth=%d cfg=%r -> ref=%s outcome=%s" % (
+            FORM_NAMES[case["form"]], concrete(case["uri"], w.T), case["depth"], case["cfg"], obs["ref"], obs["kind"])
+        return viols, text
 
 
 def replay(case):
     case = core.unjson(case)
+    seed = case.get("seed", 0)
+    prelude = case.get("prelude")
     cwd = os.getcwd()
-    w = World(case.get("seed", 0))
     try:
-        os.chdir(w.T)
-        ci = cfg_id(case["cfg"]["roots"], case["cfg"]["mods"])
-        obs, viols = run_case(w, ci, case["form"], case["depth"], case["uri"])
-        d = diff_snapshot(w, CONFIGS[ci])
-        if d is not None:
-            viols.append(("snapshot: %s roots=%s" % (d[0], case["cfg"]["roots"]), "5 the tree outside module_directory is unchanged", "unchanged tree", d[1]))
-        text = "%s(%r) depth=%d cfg=%r -> ref=%s outcome=%s" % (
-            FORM_NAMES[case["form"]], concrete(case["uri"], w.T), case["depth"], case["cfg"], obs["ref"], obs["kind"])
+        if prelude is None and case.get("chain"):
+            key = (case["chain"], seed)
+            ctx = _CHAIN_CTX.get(key)
+            if ctx is None:
+                ctx = _CHAIN_CTX[key] = _Ctx(seed)
+        else:
+            ctx = _Ctx(seed)
+        os.chdir(ctx.w.T)
+        texts = []
+        for h in prelude or []:
+            _, t = ctx.step(h)
+            texts.append(t)
+        viols, t = ctx.step(case)
+        texts.append(t)
+        text = " ; then ".join(texts)
         if viols:
             return False, "reproduced: " + text + " :: " + "; ".join("%s %r" % (v[0], v[3]) for v in viols)
         return True, "holds: " + text
     finally:
         os.chdir(cwd)
+
+
+def post(tier, seed, st):
+    """order-dependent candidates: confirm the prelude in a fresh interpreter (core.find_prelude)"""
+    done = set()
+    for v in st.violations:
+        c = v["case"]
+        if not (isinstance(c, dict) and c.get("prelude")) or v["sig"] in done or len(done) >= 3:
+            continue
+        done.add(v["sig"])
+        if len(c["prelude"]) != 1:
+            continue
+        bare = {k: x for k, x in c.items() if k != "prelude"}
+        pre = core.find_prelude(MODNAME, bare, c["prelude"])
+        if pre is None:
+            st.extra.setdefault("order_dependent_unconfirmed", []).append(v["sig"])
+        else:
+            c["prelude"] = pre
+            st.extra["order_dependent_confirmed_by_find_prelude"] = st.extra.get("order_dependent_confirmed_by_find_prelude", 0) + 1
 
 
 LEVEL_TEXT = (
@@ -917,8 +1347,9 @@ LEVEL_TEXT = (
     "through each tag / Namespace form from callers at depth 0..3 under the configurations and per-form bounds listed in "
     "BOUNDS[tier]['plan'] (the full product of the design is cut to that plan for cost); on each case the "
     "returned filenames, all audited file events, the markers in output and exception text, the refusal demanded by "
-    "the reference walker and (per chunk, attributed per case on difference) the tree snapshot are checked. Complete "
-    "within those bounds; no sampling."
+    "the reference walker and (per chunk, attributed per case on difference) the tree snapshot are checked. In addition "
+    "every two-call history (outside-resolving URI, other URI; both orders) of the stated bound runs on a fresh lookup. "
+    "Complete within those bounds; no sampling."
 )
 LEVEL_NOTE = (
     "Trusted: CPython os/posixpath/audit hooks, the reference walker. Symbolic links, Windows path semantics, "
